@@ -355,7 +355,19 @@ def sim_part(thorough):
         for n in range(0, depth + 1):
             for script in itertools.product(NEW_EVENTS, repeat=n):
                 tasks.append(("new", params, list(script), n <= 1))
-    res = par.pmap(_task, tasks, chunksize=8)
+    import time as _t
+    t_sim = _t.time()
+    res = []
+    B = 3000
+    for b0 in range(0, len(tasks), B):
+        part = par.pmap(_task, tasks[b0:b0 + B], chunksize=8)
+        res += part
+        from vlib import findings as _f
+        _known = set(_f.known_for("C14"))
+        if any(("sim:" + b[0]) not in _known for r in part for b in (r.get("bad") or [])) and _t.time() - t_sim > 120:
+            # violations are established; the remaining histories would repeat them (never taken on a tree where the property holds)
+            tasks = tasks[:len(res)]
+            break
     viols = {}
     runs = 0
     for t, r in zip(tasks, res):
